@@ -24,9 +24,9 @@ RULE = ('part V: every channel configuration (9 codes x samples x bursts, 1-3 ch
         'headers and trailers, tables, unknown-format records, a second pass) x physical record length x TIF: index entries; part '
         'P: frames-per-record patterns that are not "k,..,k,short last" x X mode x direction x selections starting at record '
         'boundaries; part D: a normal (type 0) and an alternate (type 1) format specification in one logical file, data records '
-        'interleaved in every listed order; part H: BFS over setFrameSet histories. Every load is also read back through '
+        'interleaved in every listed order; part O: every slice(a, b, s) with a, b in {None, -n-1..n+2}, s in {None,1,2,3} that is not of the concrete form 0 <= a < b <= n, for n in {1,4,7}; part H: BFS over setFrameSet histories. Every load is also read back through '
         'value(frame,channel,sub-channel,sample,burst) and the per-channel views. non-trivial = any selection or more than one data record; outcome = hash of loaded matrix')
-ASSUMPTIONS = ['slices are the documented domain of setFrameSet: concrete start < stop <= total frames, step >= 1 (or None for all)',
+ASSUMPTIONS = ['slices: any start and stop (None, negative, beyond the last frame) with Python slice semantics, step None or >= 1; a negative step is refused by the library with its own exception class (ExceptionFrameSetPlanNegLen) and is not enumerated',
                'frame values are exactly representable in their code and in float64; implied X with spacing 1/2 is compared exactly, spacing 1/10 and converted units within (frames+2) ulp',
                'index entries are compared for header, trailer, table and format-specification records; records of unknown internal format need only not disturb their neighbours',
                'dipmeter codes (130, 234) are exercised in C08 only']
@@ -362,6 +362,8 @@ def step(system, op, check):
         lp.setFrameSet(system.fr, pyslice, None if chs is None else list(chs))
     except Exception as err:  # noqa
         sig = {'kind': 'load_raises', 'exc': type(err).__name__}
+        if sl is not None and (None in sl[:2] or min(x for x in sl[:2] if x is not None) < 0 or (sl[1] is not None and sl[1] > n)):
+            sig['slice'] = 'open, negative or beyond the last frame'
         if isinstance(err, OverflowError) and any(c['code'] == 70 for c in spec['channels']) and 'negative value' in str(err):
             sig = {'kind': 'code70_negative_value_unreadable', 'where': 'load'}
         return [(sig, 'setFrameSet(%r,%r): %s: %s' % (sl, chs, type(err).__name__, err))]
@@ -373,8 +375,13 @@ def step(system, op, check):
         cols = list(range(len(spec['channels'])))
     else:
         cols = sorted(set(chs) | (set() if spec['indirect'] else {0}))
-    exp = model_submatrix(spec, model, frames, cols)
     fs = lp.frameSet
+    if not frames:
+        nrows = 0 if fs is None or fs.frames is None else len(fs.frames)
+        if nrows:
+            return [({'kind': 'matrix_shape'}, 'load(%r,%r): %d rows for a selection of no frame' % (sl, chs, nrows))]
+        return []
+    exp = model_submatrix(spec, model, frames, cols)
     got = np.asarray(fs.frames)
     if got.shape != exp.shape:
         bad.append(({'kind': 'matrix_shape'}, 'load(%r,%r): shape %r expected %r' % (sl, chs, got.shape, exp.shape)))
@@ -512,6 +519,23 @@ def gen_P(tier):
                     yield ['file_head', ['pass', spec, 0], 'file_tail'], {'maxlen': 65535}, ops
 
 
+def gen_O(tier):
+    """Slices written the way Python allows: open ends (None), negative members, a stop beyond the last frame."""
+    cfg = [chan('X   ', 68), chan('A   ', 73), chan('B   ', 79, 2, 1)]
+    for indirect in (0, 68):
+        for n, fpr in ((1, 1), (4, 3), (7, 3)) + (((9, 4),) if tier == 'thorough' else ()):
+            spec = base_spec(cfg, n, fpr, indirect=indirect)
+            rng = [None] + list(range(-n - 1, n + 3))
+            ops = []
+            for a, b, st in itertools.product(rng, rng, (None, 1, 2, 3)):
+                if a is not None and b is not None and st is not None and 0 <= a < b <= n:
+                    continue        # the concrete form is part S
+                ops.append(['load', 0, [a, b, st], None])
+                if (a, st) == (None, 2) or (b, st) == (None, 1):
+                    ops.append(['load', 0, [a, b, st], [1]])
+            yield ['file_head', ['pass', spec, 0], 'file_tail'], {'maxlen': 65535}, ops
+
+
 def gen_D(tier):
     """Two format specifications in one logical file: normal (type 0) and alternate (type 1) data, records interleaved."""
     cfg_a = [chan('DEPT', 68), chan('GR  ', 68), chan('SP  ', 79, 2, 1)]
@@ -583,7 +607,8 @@ def h_menu():
 def shards(tier):
     return ([{'gen': 'V', 'part': p, 'of': 32} for p in range(32)] + [{'gen': 'S', 'part': p, 'of': 64} for p in range(64)] +
             [{'gen': 'I', 'part': p, 'of': 16} for p in range(16)] + [{'gen': 'H', 'part': p, 'of': 4} for p in range(4)] +
-            [{'gen': 'P', 'part': p, 'of': 8} for p in range(8)] + [{'gen': 'D', 'part': p, 'of': 8} for p in range(8)])
+            [{'gen': 'P', 'part': p, 'of': 8} for p in range(8)] + [{'gen': 'D', 'part': p, 'of': 8} for p in range(8)] +
+            [{'gen': 'O', 'part': p, 'of': 8} for p in range(8)])
 
 
 def run_ops(items, layout, ops, res, shape):
@@ -609,7 +634,11 @@ def run_ops(items, layout, ops, res, shape):
         first = False
         bad = step(system, op, True)
         lp = system.passes[op[1]].logPass if op[1] < len(system.passes) else None
-        outcome = h64(np.asarray(lp.frameSet.frames).tobytes()) if lp is not None and lp.frameSet is not None else 0
+        try:
+            fset = lp.frameSet if lp is not None else None
+        except AttributeError:       # a load that raised leaves the log pass without the attribute
+            fset = None
+        outcome = h64(np.asarray(fset.frames).tobytes()) if fset is not None and fset.frames is not None else 0
         res.case(h64((repr(base), repr(op))), nontrivial=op[2] is not None or op[3] is not None or len(items) > 3, outcome=outcome,
                  sample=dict(base, op=op) if res.evaluations % 20011 == 7 else None)
         res.count('loads_' + shape)
@@ -634,7 +663,7 @@ def run_shard(shard, tier):
             res.case(h64(repr((items, layout))), nontrivial=True, outcome=h64((st, tr)),
                      sample={'items': items, 'layout': layout, 'states': st, 'transitions': tr, 'frontier_closed': closed})
         return res
-    gen = {'V': gen_V, 'S': gen_S, 'I': gen_I, 'P': gen_P, 'D': gen_D}[g](tier)
+    gen = {'V': gen_V, 'S': gen_S, 'I': gen_I, 'P': gen_P, 'D': gen_D, 'O': gen_O}[g](tier)
     for i, (items, layout, ops) in enumerate(gen):
         if i % shard['of'] != shard['part']:
             continue
